@@ -62,6 +62,16 @@ def optNat : P (Option Nat) := do
   let t ← tok
   if t == "n" then pure none else match t.toNat? with | some n => pure (some n) | none => failure
 
+/-- integers: `p<digits>` (non-negative) / `m<digits>` (negative) -/
+def int : P Int := do
+  let t ← tok
+  match t.toList with
+  | 'p' :: r => match (String.ofList r).toNat? with | some n => pure (n : Int) | none => failure
+  | 'm' :: r => match (String.ofList r).toNat? with | some n => pure (-(n : Int)) | none => failure
+  | _ => failure
+
+def showInt (i : Int) : String := if i < 0 then s!"m{(-i).toNat}" else s!"p{i.toNat}"
+
 def bool : P Bool := do
   let n ← nat
   pure (n != 0)
